@@ -41,6 +41,11 @@ PROGRAMS = {
     # a rec directly inside a rec, in a function applied twice: four components, none shared
     "nested-rec-in-function-applied-twice": ({"main.oal": "let tree x = rec node { 'value x, 'children [node], 'meta rec m { 'of x, 'parent? m } };\nres /ints on get -> <tree int>;\nres /strs on get -> <tree str>;\n"},
                                              OK, {"components": 4, "distinct_by": [("of", ["integer", "string"]), ("value", ["integer", "string"])]}),
+    # cycles made of arrays only: every hop must still be a component the emitter stops at
+    "array-only-cycles": ({"main.oal": "let forest = [grove];\nlet grove = [forest];\nlet a = [a];\nres /f on get -> <forest>;\nres /a on get -> <a>;\nres /r on get -> <rec x [x]>;\n"}, OK, {"min_components": 4}),
+    # one rec-carrying function applied twice inside one enclosing application
+    "rec-function-applied-twice-inside-one-application": ({"main.oal": "let list x = rec r { 'item x, 'rest [r] };\nlet pair y = { 'ints (list y), 'strs (list str) };\nres /pair on get -> <pair int>;\n"},
+                                                          OK, {"components": 2, "distinct_by": [("item", ["integer", "string"])]}),
     "function-cycle": ({"main.oal": "let f x = g x;\nlet g x = f x;\nres / on get -> <f num>;\n"}, REJECT, {}),
     "content-cycle": ({"main.oal": "let c = <c>;\nres / on get -> c;\n"}, REJECT, {}),
     "alias-cycle": ({"main.oal": "let a = b;\nlet b = a;\nres / on get -> <a>;\n"}, REJECT, {}),
@@ -289,24 +294,7 @@ def check():
                 structural("node_identifier(scoped): the identifier of the innermost evaluation scope (0 outside any) is hashed in as well", okk)
             else:
                 structural("node_identifier(unscoped): nothing but the node is hashed", not up)
-    # what the content digest of a node covers: the module (its whole locator), the node's index and generation. Indices
-    # restart in every module's arena, file names repeat across directories: without the full locator two modules alias
-    try:
-        MMd = mirlib.module("oal-model")
-        f_dig = MMd.sel("grammar", "digest", arg0=r"NodeRef<")
-        o.functions.append(mirlib.func_ref(f_dig, "oal-model"))
-        exd = mirlib.executor([MMd])
-        for p in exd.run(f_dig, arg_names=["self", "digest"]):
-            if p.kind != "return":
-                continue
-            ups = [ms.show(e[2][1]) for e in p.calls() if e[1].endswith("Digest::update")]
-            whole = [u for u in ups if re.search(r"^&?Url::as_str\(Locator::url\(SyntaxTree::locator\(", u) or re.search(r"^&?(Locator|Url)\.\w+::(to_string|as_ref)\(.*SyntaxTree::locator\(", u)]
-            structural("NodeRef::digest: the module's whole locator (not a part of it) goes into the digest", len(whole) == 1)
-            parts = [u for u in ups if "into_raw_parts" in u]
-            structural("NodeRef::digest: the node's arena index and generation go into the digest", len(parts) == 2 and any(u.endswith(".0)") for u in parts) and any(u.endswith(".1)") for u in parts))
-        mirlib.check_translator(o, exd, "NodeRef::digest")
-    except Exception as exn:
-        o.inconc("NodeRef::digest: %s" % str(exn)[:160])
+    digest_lemmas(o, structural)
     ex = mirlib.executor([M])
     SELF = ("deref", ("sym", "self"))
     for p in ex.run(f_push, arg_names=["self", "scope"]):
@@ -381,6 +369,15 @@ def check():
                                 pushers.append(f.short)
         o.extra["scope_stack_pushers"] = sorted(set(pushers))
         structural("Context: scopes are pushed by push_scope only, so every scope has a fresh identifier", bool(pushers) and set(pushers) <= {"eval::push_scope"})
+
+    # the emitter side of "each recursion point is a $ref": a generated reference is written in place only for kinds whose
+    # emitter emits no nested schema (shared with C01)
+    try:
+        import props.c01 as c01
+        MOe = mirlib.module("oal-openapi")
+        c01.maybe_inline_lemmas(o, L, S, MOe, E, on_sat)
+    except Exception as exn:
+        o.inconc("maybe_inline lemmas: %s" % str(exn)[:160])
 
     # the definition graph cycles_check works on: while a declaration is being resolved it is the graph's current node
     # from its start to its end - a rec inside it neither opens nor closes a node - so every reference inside a
@@ -518,6 +515,29 @@ def cycles_lemmas(o, L, S, M, E, f_cyc, structural, on_sat):
     if min(roles.values()) == 0:
         o.inconc("cycles_check: a role has no path (%s)" % roles)
 
+
+
+def digest_lemmas(o, structural):
+    """NodeRef::digest from its own MIR (shared with C01: the digest is the cache key of evaluated declarations - two nodes
+    that share it share a value, of whatever kind)."""
+    # what the content digest of a node covers: the module (its whole locator), the node's index and generation. Indices
+    # restart in every module's arena, file names repeat across directories: without the full locator two modules alias
+    try:
+        MMd = mirlib.module("oal-model")
+        f_dig = MMd.sel("grammar", "digest", arg0=r"NodeRef<")
+        o.functions.append(mirlib.func_ref(f_dig, "oal-model"))
+        exd = mirlib.executor([MMd])
+        for p in exd.run(f_dig, arg_names=["self", "digest"]):
+            if p.kind != "return":
+                continue
+            ups = [ms.show(e[2][1]) for e in p.calls() if e[1].endswith("Digest::update")]
+            whole = [u for u in ups if re.search(r"^&?Url::as_str\(Locator::url\(SyntaxTree::locator\(", u) or re.search(r"^&?(Locator|Url)\.\w+::(to_string|as_ref)\(.*SyntaxTree::locator\(", u)]
+            structural("NodeRef::digest: the module's whole locator (not a part of it) goes into the digest", len(whole) == 1)
+            parts = [u for u in ups if "into_raw_parts" in u]
+            structural("NodeRef::digest: the node's arena index and generation go into the digest", len(parts) == 2 and any(u.endswith(".0)") for u in parts) and any(u.endswith(".1)") for u in parts))
+        mirlib.check_translator(o, exd, "NodeRef::digest")
+    except Exception as exn:
+        o.inconc("NodeRef::digest: %s" % str(exn)[:160])
 
 
 def graph_lemmas(o, L, S, M, E, structural, on_sat):
